@@ -466,7 +466,7 @@ func TestC17HandlerLayouts(t *testing.T) {
 				cctx, _ := w.e.Ctx.CacheContext()
 				saved := w.e.Ctx
 				w.e.Ctx = cctx
-				r := w.e.Deliver(msg)
+				r := w.e.DeliverDirect(msg) // the handler gets the caller's own slices
 				w.e.Ctx = saved
 				if !sameBytes(before, snapshot(backing)) || !bytes.Equal(sr, msg.StorageRoot) || !bytes.Equal(bh, msg.LastBlockHash) {
 					caseFail(t, id, "FinalizeTokenWithdrawal modified the caller's message/proof bytes (layout %s)", l)
